@@ -1265,6 +1265,7 @@ pub(crate) fn sock_shutdown(k: &K, sock: usize, rd: bool, wr: bool) {
     if changed {
         let (t, seq) = (g.now, g.next_seq());
         g.log(me, "shutdown", sock as u64, (rd as u64) | ((wr as u64) << 1));
+        g.history.fault("deadline-shutdown");
         g.conn_ev(sock, ConnEv::Shutdown { t, seq, tid: me });
         g.wake_waiters(&WaitOn::Sock(sock));
         if wr {
